@@ -716,6 +716,57 @@ fn traits_multi_cases() -> Vec<Case> {
     v
 }
 
+/// shapes whose parts stand in a geometric relation to each other: a hole that lies inside an EARLIER outer ring
+/// than the one it is listed under, parts that start where the previous one ends, parts that coincide
+fn relation_cases() -> Vec<Case> {
+    let mut v = vec![];
+    let sq = |x0: f64, y0: f64, side: f64, cw: bool| -> Vec<(f64, f64)> {
+        let mut r = vec![(x0, y0), (x0, y0 + side), (x0 + side, y0 + side), (x0 + side, y0), (x0, y0)];
+        if !cw {
+            r.reverse();
+        }
+        r
+    };
+    for ty in [Ty::Polygon, Ty::PolygonM, Ty::PolygonZ] {
+        // every arrangement of {big island, islet far away, islet inside the big island's extent} as outer rings,
+        // followed by a hole placed inside the big island / inside the far islet / outside everything
+        let outers = [sq(0.0, 0.0, 20.0, true), sq(100.0, 100.0, 4.0, true), sq(30.0, 0.0, 4.0, true)];
+        let holes = [sq(2.0, 2.0, 2.0, false), sq(101.0, 101.0, 1.0, false), sq(500.0, 500.0, 1.0, false)];
+        for a in 0..3 {
+            for b in 0..3 {
+                if a == b {
+                    continue;
+                }
+                for h in 0..3 {
+                    for extra_hole_first in [false, true] {
+                        let mut parts = vec![MPart { kind: 0, pts: to_p4(&outers[a], 0) }];
+                        if extra_hole_first {
+                            parts.push(MPart { kind: 1, pts: to_p4(&holes[(h + 1) % 3], 3) });
+                        }
+                        parts.push(MPart { kind: 0, pts: to_p4(&outers[b], 7) });
+                        parts.push(MPart { kind: 1, pts: to_p4(&holes[h], 11) });
+                        v.push(Case::Shape(MShape { ty, parts }));
+                    }
+                }
+            }
+        }
+    }
+    for ty in [Ty::Polyline, Ty::PolylineM, Ty::PolylineZ] {
+        // chains: each part starts where the previous one ends / where it starts / is the previous one again
+        let pts: [(f64, f64); 5] = [(0.0, 0.0), (1.0, 1.0), (2.0, 0.0), (3.0, 1.0), (0.0, 0.0)];
+        let segs: Vec<Vec<(f64, f64)>> = vec![vec![pts[0], pts[1]], vec![pts[1], pts[2]], vec![pts[2], pts[3]], vec![pts[1], pts[0]], vec![pts[0], pts[1], pts[2]], vec![pts[2], pts[3], pts[4]]];
+        for a in 0..segs.len() {
+            for b in 0..segs.len() {
+                v.push(Case::Shape(MShape { ty, parts: vec![MPart { kind: 0, pts: to_p4(&segs[a], 0) }, MPart { kind: 0, pts: to_p4(&segs[b], 5) }] }));
+                for c in 0..segs.len() {
+                    v.push(Case::Shape(MShape { ty, parts: vec![MPart { kind: 0, pts: to_p4(&segs[a], 0) }, MPart { kind: 0, pts: to_p4(&segs[b], 5) }, MPart { kind: 0, pts: to_p4(&segs[c], 9) }] }));
+                }
+            }
+        }
+    }
+    v
+}
+
 /// shapes that only a reader can produce
 fn read_cases() -> Vec<Case> {
     let mut v = vec![];
@@ -807,6 +858,7 @@ pub fn check(tier: Tier) -> i32 {
     cases.extend(traits_cases());
     cases.extend(traits_multi_cases());
     cases.extend(read_cases());
+    cases.extend(relation_cases());
     let nb = (cases.len() + 255) / 256;
     let (agg, capped) = par_blocks(nb, None, |b, ctx, tick| {
         for c in &cases[b * 256..((b + 1) * 256).min(cases.len())] {
@@ -841,7 +893,7 @@ pub fn check(tier: Tier) -> i32 {
             tier,
             level: "model_checking",
             engine: "E2 enumerator on the real From/TryFrom impls between shapefile and geo-types values and the geo-traits accessors (library built with features geo-types + geo-traits)",
-            rule: "shapes: Point/PointM/PointZ with <= 2 special values from the per-dimension alphabets; Multipoint* of 1-3 points and Polyline* structures with one X/Y slot replaced by every value of F_xy; Polygon*: every role word of the outer-first language O I{0..2} (O I{0..2}){0..2} x ring templates {triangle cw/ccw, square cw/ccw, zero-area, open triangle} (all combinations up to 3 rings, a rotating choice above), and k outer rings with 0-2 holes each for every k up to 48; multipatches: every kind vector of length 1-3 over the 6 kinds (ring-only ones convert, any strip / fan is refused); NullShape; geo-types: Point, Line, LineString, MultiLineString (1-3), MultiPoint (1-3), Polygon with 0-2 holes x templates, MultiPolygon of 1-3 polygons, Rect, Triangle, GeometryCollection; geo-traits: every Point/PointM/PointZ with <= 2 special values from the full alphabet (no-data, below-threshold, NaN measures included), and every point of Multipoint*/Polyline* structures reached through the MultiPointTrait / MultiLineStringTrait views with one slot replaced by every value of its alphabet; plus shapes READ from records encoded as given: polylines with parts of 1-3 vertices in every arrangement of up to 3 parts, polygons (with and without a hole) whose rings are closed in X / Y while the last vertex differs from the first in Z, M, both or neither; every case is non-trivial",
+            rule: "shapes: Point/PointM/PointZ with <= 2 special values from the per-dimension alphabets; Multipoint* of 1-3 points and Polyline* structures with one X/Y slot replaced by every value of F_xy; Polygon*: every role word of the outer-first language O I{0..2} (O I{0..2}){0..2} x ring templates {triangle cw/ccw, square cw/ccw, zero-area, open triangle} (all combinations up to 3 rings, a rotating choice above), and k outer rings with 0-2 holes each for every k up to 48; multipatches: every kind vector of length 1-3 over the 6 kinds (ring-only ones convert, any strip / fan is refused); NullShape; geo-types: Point, Line, LineString, MultiLineString (1-3), MultiPoint (1-3), Polygon with 0-2 holes x templates, MultiPolygon of 1-3 polygons, Rect, Triangle, GeometryCollection; geo-traits: every Point/PointM/PointZ with <= 2 special values from the full alphabet (no-data, below-threshold, NaN measures included), and every point of Multipoint*/Polyline* structures reached through the MultiPointTrait / MultiLineStringTrait views with one slot replaced by every value of its alphabet; plus polygons whose hole lies inside an earlier outer ring than the one it is listed under (every arrangement of a big island, a far islet, an islet next to it and three hole positions), polylines whose consecutive parts share end points or coincide (all pairs and triples over 6 segments); plus shapes READ from records encoded as given: polylines with parts of 1-3 vertices in every arrangement of up to 3 parts, polygons (with and without a hole) whose rings are closed in X / Y while the last vertex differs from the first in Z, M, both or neither; every case is non-trivial",
             bounds: json!({"cases": cases.len(), "max_rings": 9, "max_patches": 3}),
             exhaustive: true,
             assumptions: vec![
